@@ -73,6 +73,18 @@ Definition pf_spec_ok (c : pf_case) : bool :=
       end
   end.
 
+(** 4b. CodeQLLocation.from_sarif: observed (start line, start column, end line, end column), None when a column is None *)
+Definition cq_case := (option region * option (Z * Z * (Z * Z)))%type.
+Definition cq_model_ok (c : cq_case) : bool :=
+  let '(r, obs) := c in
+  match codeql_loc codeql_start_column [] r, obs with
+  | Some l, Some (a, b, (c', d)) => (pline (lstart l) =? a) && (pcol (lstart l) =? b) && (pline (lend l) =? c') && (pcol (lend l) =? d)
+  | None, None => true
+  | _, _ => false
+  end.
+(** spec: a region always denotes a location (SARIF: startColumn defaults to 1) *)
+Definition cq_spec_ok (c : cq_case) : bool := match snd c with Some _ => true | None => false end.
+
 (** 5. end to end (real CLI): a program with candidate nodes, the open results of the result file, observed rewrites *)
 Record e2e_case := mke2e {
   e_ovr : filter_override;
@@ -85,8 +97,13 @@ Record e2e_case := mke2e {
   e_sites : list (N * Z);           (* site node id, line at which its change is reported *)
   e_lost : bool;                    (* on_result_found rebuilds a selected node from original_node: the rewrite of a selected
                                        node nested in another selected node is discarded (C18_nested, FromOriginal) *)
-  e_span : N;                       (* change entries reported per selected node, at consecutive lines from its start line
-                                       (1; fix-assert-tuple: one per tuple element) *)
+  e_entry : list (Z * Z);           (* change entries reported per selected node: (line offset of the entry, line offset at which
+                                       its findings are looked up), relative to the node's start line.  [(0,0)] for report_change;
+                                       fix-assert-tuple [(0,0);(1,1)]; nan-injection [(0,0);(1,0);(2,0);(3,0)] *)
+  e_own : list Z;                   (* line offsets (from the site line) of the entries that are the site's own *)
+  e_noresult : bool;                (* the transformer never consults the results (no filter_by_result / node_is_selected) *)
+  e_only_last : bool;               (* the transformer keeps a single (node, replacement) per module: only the last selected node
+                                       is rewritten and reported (flask-json-response-type) *)
   e_expected : list N;              (* S: ids of the sites reported by a result of the codemod's rules in this file *)
   e_obs_rewritten : list N;         (* ids of the sites whose text changed *)
   e_obs_changes : list (Z * list str) (* ALL change entries of the file in the report: line, finding ids; in report order *)
@@ -105,12 +122,16 @@ Definition model_run (c : e2e_case) : list N * list change :=
   match process_file (Some (of_results (e_results c))) (e_rules c) (e_file c) with
   | ShortCircuit => ([], [])
   | Transform f =>
-      let sel := List.filter (node_is_selected T_now (e_ovr c) f [] []) (e_nodes c) in
+      let sel0 := List.filter (node_is_selected T_now (e_ovr c) (if e_noresult c then None else f) [] []) (e_nodes c) in
+      let sel := if e_only_last c then match rev sel0 with x :: _ => [x] | [] => [] end else sel0 in
       let lost n := e_lost c && existsb (fun m => encloses (nspan m) (nspan n)) sel in
       let rew := List.filter (fun i => mem_N i (map fst (e_sites c))) (map nid (List.filter (fun n => negb (lost n)) sel)) in
-      let entries := flat_map (fun n => map (fun k => let line := pline (sstart (nspan n)) + Z.of_nat k in
-                                                      mkchange line (get_findings_for_location findings_attach_rule f line))
-                                            (seq 0 (N.to_nat (e_span c)))) sel in
+      let entries := flat_map (fun n => map (fun d => let line := pline (sstart (nspan n)) + fst d in
+                                                      let given := get_findings_for_location findings_attach_rule f (pline (sstart (nspan n)) + snd d) in
+                                                      (* report_change_for_line(line, findings=given): `given or by-line lookup` *)
+                                                      mkchange line (if nonempty given then given
+                                                                     else get_findings_for_location findings_attach_rule f line))
+                                            (e_entry c)) sel in
       (* no rewritten text in the file => no diff => no change set at all *)
       (rew, match rew with [] => [] | _ => entries end)
   end.
@@ -129,7 +150,8 @@ Definition e2e_sites_ok (c : e2e_case) : bool := same_set (e_obs_rewritten c) (e
 Definition e2e_entries_ok (c : e2e_case) : bool :=
   let carrying := List.filter (fun ch => nonempty (snd ch)) (e_obs_changes c) in
   let n_entries line := length (List.filter (fun ch => Z.eqb (fst ch) line) carrying) in
-  let n_sites line := length (List.filter (fun s => Z.eqb (snd s) line && mem_N (fst s) (e_obs_rewritten c)) (e_sites c)) in
+  let n_sites line := length (List.filter (fun s => existsb (fun o => Z.eqb (snd s + o) line) (e_own c) &&
+                                                    mem_N (fst s) (e_obs_rewritten c)) (e_sites c)) in
   forallb (fun ch => Nat.eqb (length (snd ch)) 1 && Nat.eqb (n_entries (fst ch)) (n_sites (fst ch))) carrying &&
   forallb (fun s => if mem_N (fst s) (e_obs_rewritten c) then negb (Nat.eqb (n_entries (snd s)) 0) else true) (e_sites c).
 
